@@ -872,8 +872,10 @@ since step `p`): both enabled, conflicting — `Race`. The argument uses exactly
 both by construction of `next` (each clause reads or writes the one field `accessOf` names, `mopExec`/`itNext` included)
 and observed on the real code by `c01acc` (comparator arguments, value slots read, raw slots written per call):
 the successor of a private state depends on the memory only at the location `accessOf` names, and the memory changes
-only there, and only if the access is a write. It is not instantiated as a Lean theorem (it would need that
-locality lemma for all clauses of `next`); the abstract statement is the textbook one. -/
+only there, and only if the access is a write. The argument is machine-checked for every system of that shape
+(`Proofs/FirstRace.lean`: `no_conflicting_accesses_of_race_free`, re-exported as
+`Props.C01Race.race_free_configurations_exclude_all_data_races`); what is not a Lean theorem is the instantiation — the
+locality lemma for all clauses of `next`. -/
 def Race (c : Config K V) : Prop :=
   ∃ (i j : Nat) (a b : Access), i ≠ j ∧ (c.pcs[i]?).bind accessOf = some a ∧ (c.pcs[j]?).bind accessOf = some b ∧ conflict a b = true
 
